@@ -15,6 +15,8 @@ mod bloom;
 mod error;
 pub use error::TinyLFUError;
 mod sketch;
+#[cfg(feature = "verif-hooks")]
+mod verif;
 
 pub(crate) const DEFAULT_FALSE_POSITIVE_RATIO: f64 = 0.01;
 
